@@ -103,4 +103,14 @@ extern int (*sim_usleep_hook)(unsigned int usec);	/* usleep() as called by posix
 
 int sim_main(int argc, char **argv);
 
+/* Calls of the API under test name the function directly and pass argument expressions whose
+ * evaluations are counted: an entry point (re)implemented as a macro must evaluate each argument
+ * exactly once.  ONCE(n, call) for statements, ONCE_V(n, call) for calls whose value is used;
+ * inside the call every argument is written ARG(expression). */
+extern unsigned sim_arg_evals;
+void sim_once_check(unsigned nargs, const char *call);
+#define ARG(x) (sim_arg_evals++, (x))
+#define ONCE(n, call) do { sim_arg_evals = 0; call; sim_once_check((n), #call); } while (0)
+#define ONCE_V(n, call) __extension__({ sim_arg_evals = 0; __typeof__(call) once_v_ = (call); sim_once_check((n), #call); once_v_; })
+
 #endif
